@@ -532,6 +532,9 @@ impl<'a> Lifter<'a> {
                 let t = self.block_scoped(&i.then_branch)?;
                 let Some((_, eb)) = &i.else_branch else { return unsupported("if without else in value position", e) };
                 let f = self.scoped(eb)?;
+                let mut tf = [t, f];
+                Self::cap_unify(&mut tf);
+                let [t, f] = tf;
                 let ty = if t.ty == f.ty || f.ty.contains('?') { t.ty.clone() } else if t.ty.contains('?') { f.ty.clone() } else {
                     return Err(format!("construct outside rule list (lift): if branches of types {} / {}", t.ty, f.ty));
                 };
@@ -651,6 +654,9 @@ impl<'a> Lifter<'a> {
         let t = t?;
         let Some((_, eb)) = &i.else_branch else { return unsupported("if-let without else in value position", &i.cond) };
         let f = self.scoped(eb)?;
+        let mut tf = [t, f];
+        Self::cap_unify(&mut tf);
+        let [t, f] = tf;
         Ok(v(format!("(match {} {{ {pat} => {{ {} }}, _ => {{ {} }} }})", scrut.text, t.text, f.text), &t.ty))
     }
 
@@ -789,11 +795,16 @@ impl<'a> Lifter<'a> {
             };
             self.env.pop();
             let (p, b) = (p?, b?);
+            arms.push((p, b));
+        }
+        let mut bodies: Vec<Val> = arms.iter().map(|(_, b)| b.clone()).collect();
+        Self::cap_unify(&mut bodies);
+        for b in &bodies {
             if ty.is_empty() || ty.contains('?') {
                 ty = b.ty.clone();
             }
-            arms.push(format!("{p} => {{ {} }}", b.text));
         }
+        let arms: Vec<String> = arms.iter().zip(bodies.iter()).map(|((p, _), b)| format!("{p} => {{ {} }}", b.text)).collect();
         Ok(v(format!("(match {} {{ {} }})", scrut.text, arms.join(", ")), &ty))
     }
 
@@ -1139,6 +1150,9 @@ impl<'a> Lifter<'a> {
                     }
                     let f = self.rest(rest, cont)?;
                     self.note("L14", e.span(), "early return: rest of the body moved into the other branch");
+                    let mut tf = [t, f];
+                    Self::cap_unify(&mut tf);
+                    let [t, f] = tf;
                     return Ok(v(format!("(match {} {{ {pat} => {{ {} }}, _ => {{ {} }} }})", scrut.text, t.text, f.text), &t.ty));
                 }
                 let c = self.expr(&i.cond)?;
@@ -1164,6 +1178,9 @@ impl<'a> Lifter<'a> {
                     },
                 };
                 self.note("L14", e.span(), "early return: rest of the body moved into the other branch");
+                let mut tf = [t, f];
+                Self::cap_unify(&mut tf);
+                let [t, f] = tf;
                 Ok(v(format!("(if {} {{ {} }} else {{ {} }})", c.text, t.text, f.text), &t.ty))
             }
             Expr::Match(m) if Self::contains_return(e) => {
@@ -1285,6 +1302,51 @@ impl<'a> Lifter<'a> {
         }
     }
 
+    /// L17c: `observe=@f.k` / `@f#n.k` - the k-th argument handed to the n-th call of `f` (evaluation order) is the
+    /// observable, independent of what the locals are called
+    fn capture_call_arg(&mut self, key: &str, args: &[Val], ptys: &[String]) -> R<()> {
+        let key = key.to_string();
+        if let Some(obs) = self.observe.clone() {
+            if let Some(rest) = obs.strip_prefix('@') {
+                if let Some((fname, k)) = rest.split_once('.') {
+                    let (fname, occ) = match fname.split_once('#') {
+                        Some((a, n)) => (a, n.parse::<usize>().map_err(|_| format!("bad observable `{obs}`"))?),
+                        None => (fname, 0),
+                    };
+                    let seen = *self.calls_seen.get(&key).unwrap_or(&0);
+                    if fname == key {
+                        self.calls_seen.insert(key.clone(), seen + 1);
+                    }
+                    if fname == key && seen == occ {
+                        let k: usize = k.parse().map_err(|_| format!("bad observable `{obs}`"))?;
+                        if k < args.len() {
+                            let mut cap = args[k].clone();
+                            if cap.ty.contains('?') {
+                                cap = v(format!("{}::<{}>", cap.text, ptys[k].trim_start_matches("Option<").trim_end_matches('>')), &ptys[k]);
+                            }
+                            self.hoist.last_mut().unwrap().push(("@@capture".to_string(), cap));
+                        }
+                    }
+                }
+            }
+        }
+        Ok(())
+    }
+
+    /// L17c: when one branch of a join ends in a captured call argument, the other branches (which would return the
+    /// function's ordinary result) are arbitrary values of the capture's type
+    fn cap_unify(vals: &mut [Val]) {
+        if let Some(k) = vals.iter().position(|x| x.text.contains("let cap__ =")) {
+            let ty = vals[k].ty.clone();
+            for x in vals.iter_mut() {
+                if x.ty != ty && !x.text.contains("let cap__ =") {
+                    x.text = "arbitrary()".to_string();
+                    x.ty = ty.clone();
+                }
+            }
+        }
+    }
+
     fn call(&mut self, c: &syn::ExprCall, whole: &syn::Expr) -> R<Val> {
         let syn::Expr::Path(p) = &*c.func else { return unsupported("call target", whole) };
         let path = Self::path_str(&p.path);
@@ -1395,32 +1457,7 @@ impl<'a> Lifter<'a> {
             if args.len() != ptys.len() {
                 return Err(format!("construct outside rule list (lift): call of `{key}` with {} args, declared {}", args.len(), ptys.len()));
             }
-            // L17c: `observe=@f.k` - the k-th argument handed to `f` is the observable (independent of local names)
-            if let Some(obs) = self.observe.clone() {
-                if let Some(rest) = obs.strip_prefix('@') {
-                    if let Some((fname, k)) = rest.split_once('.') {
-                        // `@f#n.k`: the n-th call of `f` in evaluation order (default: the first)
-                        let (fname, occ) = match fname.split_once('#') {
-                            Some((a, n)) => (a, n.parse::<usize>().map_err(|_| format!("bad observable `{obs}`"))?),
-                            None => (fname, 0),
-                        };
-                        let seen = *self.calls_seen.get(&key).unwrap_or(&0);
-                        if fname == key {
-                            self.calls_seen.insert(key.clone(), seen + 1);
-                        }
-                        if fname == key && seen == occ {
-                            let k: usize = k.parse().map_err(|_| format!("bad observable `{obs}`"))?;
-                            if k < args.len() {
-                                let mut cap = args[k].clone();
-                                if cap.ty.contains('?') {
-                                    cap = v(format!("{}::<{}>", cap.text, ptys[k].trim_start_matches("Option<").trim_end_matches('>')), &ptys[k]);
-                                }
-                                self.hoist.last_mut().unwrap().push(("@@capture".to_string(), cap));
-                            }
-                        }
-                    }
-                }
-            }
+            self.capture_call_arg(&key, &args, &ptys)?;
             // L9: a scalar function applied to arrays is applied element-wise
             let arr: Vec<usize> = (0..args.len()).filter(|&i| ptys[i] == "real" && args[i].ty == "RArr").collect();
             if !arr.is_empty() && rty == "real" {
@@ -1614,6 +1651,9 @@ impl<'a> Lifter<'a> {
             if ptys.len() != args.len() + 1 {
                 return Err(format!("construct outside rule list (lift): method `{name}` called with {} args, declared {}", args.len() + 1, ptys.len()));
             }
+            let mut allv = vec![recv.clone()];
+            allv.extend(args.iter().cloned());
+            self.capture_call_arg(&name, &allv, &ptys)?;
             let mut all = vec![recv.text.clone()];
             all.extend(args.iter().map(|a| a.text.clone()));
             self.note("L13", whole.span(), &format!("method call lifted to spec fn `{name}`"));
@@ -1875,8 +1915,23 @@ pub fn lift_fn(ctx: &mut Ctx, blk: &Block) -> Result<(String, Value), String> {
                         syn::visit::visit_expr_call(self, c);
                     }
                 }
+                impl C {
+                    fn _unused(&self) {}
+                }
+                struct M<'a>(&'a str, bool);
+                impl<'ast, 'a> syn::visit::Visit<'ast> for M<'a> {
+                    fn visit_expr_method_call(&mut self, m: &'ast syn::ExprMethodCall) {
+                        if m.method == self.0 {
+                            self.1 = true;
+                        }
+                        syn::visit::visit_expr_method_call(self, m);
+                    }
+                }
                 let mut c = C(fname, false);
                 syn::visit::Visit::visit_block(&mut c, f.block);
+                let mut mm = M(&c.0, false);
+                syn::visit::Visit::visit_block(&mut mm, f.block);
+                c.1 = c.1 || mm.1;
                 c.1
             } else {
                 bound_names.iter().any(|b| b == o)
